@@ -98,17 +98,26 @@ func (c *compiler) write(bb *strings.Builder, i interface{}) {
 			c.write(bb, *t)
 		}
 	case interfaceable:
-		c.write(bb, t.Interface())
+		var v interface{}
+		if safeMethod(func() { v = t.Interface() }) {
+			c.write(bb, v)
+		}
 	case string, ast.Printable, bool:
 		bb.Write(unsafeGetBytes(template.HTMLEscaper(t)))
 	case template.HTML:
 		bb.Write(unsafeGetBytes(string(t)))
 	case HTMLer:
-		bb.Write(unsafeGetBytes(string(t.HTML())))
+		var v template.HTML
+		if safeMethod(func() { v = t.HTML() }) {
+			bb.Write(unsafeGetBytes(string(v)))
+		}
 	case uint, uint8, uint16, uint32, uint64, int, int8, int16, int32, int64, float32, float64:
 		bb.Write(unsafeGetBytes(fmt.Sprint(t)))
 	case fmt.Stringer:
-		bb.Write(unsafeGetBytes(t.String()))
+		var v string
+		if safeMethod(func() { v = t.String() }) {
+			bb.Write(unsafeGetBytes(v))
+		}
 	case []string:
 		for _, ii := range t {
 			c.write(bb, ii)
@@ -135,6 +144,21 @@ func (c *compiler) write(bb *strings.Builder, i interface{}) {
 			c.write(bb, ii)
 		}
 	}
+}
+
+// safeMethod calls a method of the value being written (HTML, String,
+// Interface) and reports whether it returned. A struct that embeds a pointer
+// or an interface promotes such methods, and calling them panics when the
+// embedded member is nil: there is nothing to print then, as for a nil pointer.
+func safeMethod(call func()) (ok bool) {
+	defer func() {
+		if recover() != nil {
+			ok = false
+		}
+	}()
+
+	call()
+	return true
 }
 
 func (c *compiler) evalExpression(node ast.Expression) (interface{}, error) {
